@@ -394,7 +394,12 @@ pub struct Resources {
 
 
 #[derive(Debug, Object, ObjectWrite, DataSize, Clone, DeepClone)]
+#[pdf(Type = "Pattern?")]
 pub struct PatternDict {
+    /// 1: tiling pattern (the only kind this dictionary describes), required by Table 75
+    #[pdf(key="PatternType", default="1")]
+    pub pattern_type: i32,
+
     #[pdf(key="PaintType")]
     pub paint_type: Option<i32>,
 
